@@ -15,6 +15,7 @@ from dep_logic.markers.any import AnyMarker
 from dep_logic.markers.base import BaseMarker, EvaluationContext
 from dep_logic.markers.empty import EmptyMarker
 from dep_logic.specifiers import BaseSpecifier
+from dep_logic.specifiers.arbitrary import ArbitrarySpecifier
 from dep_logic.specifiers.base import InvalidSpecifier as UnparsableSpecifier
 from dep_logic.specifiers.base import VersionSpecifier
 from dep_logic.specifiers.generic import GenericSpecifier
@@ -470,10 +471,13 @@ def _has_exact_specifier(marker: MarkerExpression) -> bool:
         # the operand of a comparison is one version, not a specifier expression
         return False
     try:
-        marker.specifier
+        specifier = marker.specifier
     except UnparsableSpecifier:
         # the operand is not a version (or a comma separated list of versions): the
         # atom only has its PEP 508 string meaning
+        return False
+    if isinstance(specifier, ArbitrarySpecifier):
+        # `== "=3.8"` reads as the arbitrary equality `===3.8`
         return False
     if not marker.reversed:
         return True
